@@ -23,6 +23,39 @@ type c21Case struct {
 	excluded bool
 	diverged bool // the model lost track (data verdict mismatch): stop, not a C21 matter
 	nchecked int
+	// refusals that happened late (final validation / foreign key fix-up /
+	// index build) on a table that is on either side of a foreign key
+	lateFk      int
+	refusedFk   int
+	lateLowerFk int // ... of a request that involves an x_lower! column
+}
+
+// lateRefusal recognises refusals that are raised after the request has
+// already been partly processed (metaUpdate.validate, createFkeys, index
+// build), by their message.
+func lateRefusal(msg string) bool {
+	for _, m := range []string{"_lower! nonexistent column", "foreign key references nonexistent", "foreign key must point to key",
+		"IIndex mismatch", "can't create foreign key to nonexistent", "cannot build index", "invalid index column",
+		"key required in", "index entry too large", "duplicate derived column", "duplicate column in"} {
+		if strings.Contains(msg, m) {
+			return true
+		}
+	}
+	return false
+}
+
+// requestOnFk: the request addresses a table on either side of a foreign
+// key, or carries a foreign key itself.
+func requestOnFk(w *dbgen.World, a *dbgen.Admin) bool {
+	if w.FkSide(a.Table) {
+		return true
+	}
+	for _, ix := range a.Idx {
+		if ix.Fk != nil {
+			return true
+		}
+	}
+	return false
 }
 
 func newC21Case(rec *ev.Rec, jr *journal, opener dbgen.Opener) (*c21Case, error) {
@@ -64,7 +97,9 @@ func (c *c21Case) step(st *dbgen.Step) string {
 	n := len(c.jr.steps) - 1
 	var recsBefore map[string][]string
 	var dumpBefore string
+	onFk := false
 	if st.Kind == dbgen.KAdmin {
+		onFk = requestOnFk(s.W, st.Admin)
 		s.Quiesce()
 		rtBefore := s.DB.NewReadTran()
 		recsBefore = dbgen.TableRecords(rtBefore)
@@ -88,7 +123,24 @@ func (c *c21Case) step(st *dbgen.Step) string {
 	if st.Kind == dbgen.KAdmin {
 		rtAfter := s.DB.NewReadTran()
 		if !res.Accepted {
-			// a refused request changes nothing
+			if onFk {
+				c.refusedFk++
+				c.rec.Label("refused_on_fk_table")
+				if lateRefusal(res.Refusal) {
+					c.lateFk++
+					c.rec.Label("refused_late_on_fk_table")
+					c.rec.Label("refused_late_on_fk_table_" + st.Admin.Kind)
+					if strings.Contains(st.Text, "_lower!") || strings.Contains(res.Refusal, "_lower!") {
+						c.lateLowerFk++
+						c.rec.Label("refused_late_on_fk_table_involving_lower")
+					}
+				}
+			} else if lateRefusal(res.Refusal) {
+				c.rec.Label("refused_late_other_table")
+			}
+			// a refused request changes nothing: schema, links in both
+			// directions, Info, rows of ALL tables (full dump), and the
+			// invariants above were evaluated on all tables as well
 			if after := dbgen.DumpTran(rtAfter, true); after != dumpBefore {
 				return c.failure("%s: refused (%s) but the database changed: %s\n--- before\n%s--- after\n%s",
 					when, res.Refusal, firstDiff(dumpBefore, after), dumpBefore, after)
@@ -138,7 +190,7 @@ func (c *c21Case) finish() string {
 // tables unchanged by admin requests; again after persist + reopen
 // (linkFkeys); db.Check(true) at the end.
 func TestC21(t *testing.T) {
-	rec := ev.New("C21", "admin-heavy histories of 10..45 steps (60% admin requests: create/ensure/alter create|drop|rename/rename/view/drop, 12..30% drawn without regard to validity, foreign keys incl. self references in 45% of new indexes; 25% data transactions; persists; close+reopen) with the invariants checked after every step. Non-trivial: >= 1 accepted rename / drop / alter drop on a table that is on either side of a foreign key; distinct = by history text.")
+	rec := ev.New("C21", "admin-heavy histories of 10..45 steps (60% admin requests: create/ensure/alter create|drop|rename/rename/view/drop, 12..30% drawn without regard to validity, foreign keys incl. self references in 45% of new indexes; 20..50% of the requests aimed at the foreign key / derived column neighbourhood: x_lower! columns and indexes on foreign key columns, renames and drops of columns used by a foreign key index and a derived column at once, a late-failing part after a valid foreign key part, renames of tables on either side of a foreign key; 25% data transactions; persists; close+reopen) with the invariants checked after every step and the full dump compared around every refused request. Non-trivial: >= 1 accepted rename / drop / alter drop on a table that is on either side of a foreign key; distinct = by history text.")
 	rec.Assumptions = []string{
 		"the invariants are model-free (dbgen.CheckMeta); the lifecycle model is only used to generate fitting requests and to keep data actions legal",
 		"requests in the input classes of listed known findings (C21/selffk-index-drop, C21/alter-drop-two-fks-same-key, C21/rename-lower-base, C21/rename-stale-index-fields) are not issued",
@@ -181,6 +233,7 @@ func TestC21(t *testing.T) {
 		o.Admin, o.Tran, o.Persist, o.Reopen = 60, 25, 10, 5
 		o.Invalid = draw(t, "invalid", []int{12, 20, 30})
 		o.Long = false
+		o.FkStress = draw(t, "fkstress", []int{20, 35, 50})
 		n := 10 + gen.Uniform(t, "nsteps", 36)
 		for i := 0; i < n && !c.excluded && !c.diverged; i++ {
 			if msg := c.step(dbgen.GenStep(t, s.W, o)); msg != "" {
@@ -198,6 +251,9 @@ func TestC21(t *testing.T) {
 		rec.Case(nt, jr.text())
 		totalChecks += c.nchecked
 		rec.LabelN("invariant_evaluations", c.nchecked)
+		rec.LabelIf(c.lateFk > 0, "history_late_refusal_on_fk_table")
+		rec.LabelIf(c.lateFk >= 3, "history_late_refusal_on_fk_table>=3")
+		rec.LabelIf(c.lateLowerFk > 0, "history_late_refusal_on_fk_table_involving_lower")
 		rec.LabelIf(st.FkTouch > 0, "history_rename_or_drop_touching_fk")
 		rec.LabelIf(st.FkTouch >= 3, "history_rename_or_drop_touching_fk>=3")
 		rec.LabelIf(st.Drops > 0, "history_with_table_drop")
